@@ -2,6 +2,7 @@ import Drv.DQ
 import Drv.BW
 import Drv.Agg
 import Drv.Misc
+import Drv.Conn
 /-! Line-protocol driver: `driver <model>` reads operations on stdin, prints the model's answers. Core-only. -/
 def main (args : List String) : IO UInt32 := do
   let h ← IO.getStdin
@@ -9,6 +10,7 @@ def main (args : List String) : IO UInt32 := do
   | "dq" :: r => Drv.DQ.run r; pure 0
   | "bw" :: r => Drv.BW.run r; pure 0
   | "agg" :: r => Drv.Agg.run r; pure 0
+  | "dest" :: r => Drv.Conn.run r; pure 0
   | ["fmt"] => Drv.Misc.lines h Drv.Misc.fmt; pure 0
   | ["md5"] => Drv.Misc.lines h Drv.Misc.md5; pure 0
   | ["pk"] => Drv.Misc.lines h Drv.Misc.pk; pure 0
